@@ -762,6 +762,11 @@ def run (c : Cfg) : FS → List Op → FS × List Out
 
 /-! ## listings, walk, observation -/
 
+/-- what an observer can see of a state: the node graph and the open file objects (the slots of
+failed opens are bookkeeping of the harness).  The canonical text dump compared by the
+correspondence suite (`Driver/FS.lean: dump`) is a function of `nodes`. -/
+def observe (fs : FS) : List Inode × List Handle := (fs.nodes, fs.handles.filter (·.valid))
+
 /-- `ReadDir` of a node: names with their nodes, sorted by name -/
 def readdir (fs : FS) (d : Ino) : List (Name × Ino) := sortNames (fs.node d).children
 
